@@ -641,6 +641,13 @@ Definition has_tree (l : list item) : bool := existsb (fun i => match i with ITr
         do pc <- as_pure "conditional" ic;
         match fold_cond pc with
         | Some b =>
+            if fx_literals fx then
+              (* repaired (D22, D8): the result has the common type of BOTH arms and nothing is un-declared *)
+              do pt <- as_pure "conditional" it; do pf <- as_pure "conditional" if_;
+              do ppt <- promotion_cast pt; do ppf <- promotion_cast pf;
+              do '(pt', pf') <- cast_operands false ppt ppf;
+              ret (IPure (if b then pt' else pf'))
+            else
             (* simplify_conditional_expr: the dead arm is removed from the holder by name *)
             do dead <- (match (if b then if_ else it) with IPure p => ret p | _ => fail "dead arm has no name" end);
             do _ <- rm_op dead;
